@@ -6,6 +6,7 @@ import (
 	"github.com/tikv/client-go/v2/config"
 	"github.com/tikv/client-go/v2/config/retry"
 	tikverr "github.com/tikv/client-go/v2/error"
+	"github.com/tikv/client-go/v2/kv"
 	"github.com/tikv/client-go/v2/tikvrpc"
 	"github.com/tikv/client-go/v2/txnkv/txnlock"
 )
@@ -30,11 +31,18 @@ type zzScenario struct {
 	foreign      *txnlock.LockResolver
 }
 
+// zzIsCommitPoint: a request whose execution can move the commit point — the
+// commit of the primary key, or a prewrite that carries the async-commit or
+// one-phase-commit flag (a transaction may fall back from those modes).
 func zzIsCommitPoint(mode int, r zzRPC) bool {
-	if mode == 0 {
-		return r.cmd == tikvrpc.CmdCommit && r.isPrimary
+	if r.cmd == tikvrpc.CmdCommit && r.isPrimary {
+		return true
 	}
-	return r.cmd == tikvrpc.CmdPrewrite
+	if r.cmd == tikvrpc.CmdPrewrite {
+		p := r.req.Prewrite()
+		return p.TryOnePc || p.UseAsyncCommit
+	}
+	return false
 }
 
 // zzRunCommit builds the store, buffers one write per key and commits.
@@ -48,6 +56,11 @@ func zzRunCommit(mode int, faults int, keys []string) *zzScenario {
 func zzRunCommitConc(mode int, faults int, keys []string, concurrency int) *zzScenario {
 	sc := &zzScenario{mode: mode, keys: keys}
 	sc.s, sc.cl = zzNewStoreTS([][]byte{[]byte("m")}, faults, true)
+	// the keys of one region travel in one request, or — when their size reaches the
+	// batch limit — in several
+	if zzChoice("smallbatch", 2) == 1 {
+		kv.TxnCommitBatchSize.Store(1)
+	}
 	if concurrency > 1 {
 		zzEngineOnly()
 		config.UpdateGlobal(func(conf *config.Config) { conf.CommitterConcurrency = concurrency })
